@@ -4,7 +4,8 @@
 # tried side by side (one lane per worktree, different properties per lane).
 ID=$1; SD=$(realpath "$2"); TIER=${3:-quick}
 R=${VP_TRY_REPO:-/repo}
-cd /verif
+V=$(dirname "$(dirname "$(realpath "$0")")")   # the tree this script lives in (normally /verif; a private copy while a long sweep runs)
+cd "$V"
 [ "$R" = /repo ] || { [ -d "$R" ] || git -C /repo worktree add -f --detach "$R" HEAD >/dev/null 2>&1; git -C "$R" checkout -q --detach "$(git -C /repo rev-parse HEAD)"; }
 git -C $R diff --quiet || { echo "$R is dirty"; exit 2; }
 git -C $R apply $SD/patch.diff || { echo "patch does not apply"; exit 2; }
